@@ -627,20 +627,16 @@ def gen_deep(rng, tier, n_classes):
             want_struct = r < 0.3
             want_coll_of_struct = 0.3 <= r < 0.45
             for _ in range(30):
-<<<<<<< HEAD
-                # a collection nested >= 2 levels, a (top-level) class reference, or a collection of class references
+                # a collection nested >= 2 levels, a (top-level) nested structure (class reference or inline), or a
+                # collection of nested structures
                 if want_struct:
-                    fd = dg.class_decl(1, n_fields=rng.randint(1, 3))
+                    fd = dg.class_decl(1, n_fields=rng.randint(1, 3), inline=rng.random() < 0.35)
                 elif want_coll_of_struct:
-                    fd = coll_of(rng.choice(["seqOf", "deque", "tupleOf", "mapVal"]), dg.class_decl(2, n_fields=rng.randint(1, 3)))
+                    fd = coll_of(rng.choice(["seqOf", "deque", "tupleOf", "mapVal"]),
+                                 dg.class_decl(2, n_fields=rng.randint(1, 3), inline=rng.random() < 0.25))
                 else:
                     fd = dg.decl(0)
-                if (want_struct or want_coll_of_struct or container_depth(fd) >= 2) and '"inline"' not in json.dumps(fd):
-=======
-                # a collection nested >= 2 levels, or a (top-level) class reference
-                fd = dg.class_decl(1, n_fields=rng.randint(1, 3), inline=rng.random() < 0.35) if want_struct else dg.decl(0)
-                if want_struct or container_depth(fd) >= 2:
->>>>>>> postfix_tmp
+                if want_struct or want_coll_of_struct or container_depth(fd) >= 2:
                     fields.append([nm, fd])
                     break
         if not fields:
